@@ -23,28 +23,28 @@ namespace StarModel.Skeleton
 open StarModel.Params
 
 theorem adss_share : skelAdssShare =
-    ["new(adss)", "ad(self.A.to_bytes())", "ad(self.M)", "key(self.R)", "send_mac(J)", "prf(K)",
-     "new(adss encrypt)", "key(K)", "send_enc(C)", "send_enc(D)"] := by decide
+    ["new(adss)", "ad(self.A.to_bytes())", "ad(self.M)", "key(self.R)", "send_mac(_)", "prf(_)",
+     "new(adss encrypt)", "key(_)", "send_enc(_)", "send_enc(_)"] := by decide
 
 theorem adss_verify : skelAdssVerify =
-    ["new(adss)", "ad(self.A.to_bytes())", "ad(self.M)", "key(self.R)", "recv_mac(J)"] := by decide
+    ["new(adss)", "ad(self.A.to_bytes())", "ad(self.M)", "key(self.R)", "recv_mac(_)"] := by decide
 
-theorem adss_recover : skelAdssRecover = ["new(adss encrypt)", "key(K)", "recv_enc(M)", "recv_enc(R)"] := by decide
+theorem adss_recover : skelAdssRecover = ["new(adss encrypt)", "key(_)", "recv_enc(_)", "recv_enc(_)"] := by decide
 
 /-- sharing and verification absorb the same fields in the same order -/
 theorem adss_verify_matches_share : skelAdssVerify.take 4 = skelAdssShare.take 4 := by decide
 
-theorem star_digest : skelStarDigest = ["new(<label>)", "key(key)", "ad(x)"] := by decide
-theorem star_encrypt : skelStarEncrypt = ["new(<label>)", "key(enc_key_buf)", "send_enc(x)"] := by decide
-theorem star_decrypt : skelStarDecrypt = ["new(<label>)", "key(enc_key_buf)", "recv_enc(m)"] := by decide
+theorem star_digest : skelStarDigest = ["new(<label>)", "key(_)", "ad(_)"] := by decide
+theorem star_encrypt : skelStarEncrypt = ["new(<label>)", "key(_)", "send_enc(_)"] := by decide
+theorem star_decrypt : skelStarDecrypt = ["new(<label>)", "key(_)", "recv_enc(_)"] := by decide
 
-theorem rng_fill : skelRngFill = ["meta_ad(dest_len)", "prf(dest)"] ∧ skelRngFillAdss = skelRngFill ∧
+theorem rng_fill : skelRngFill = ["meta_ad(_)", "prf(_)"] ∧ skelRngFillAdss = skelRngFill ∧
     skelRngFillPpoprf = skelRngFill := by decide
 
 theorem ggm_prg : skelGgmPrgSetup = ["new(ggm key gen (ppoprf))", "key(sample_secret())"] ∧
-    skelGgmPrgEval = ["new(ggm eval (ppoprf))", "key(self.key)", "ad(input)"] := by decide
+    skelGgmPrgEval = ["new(ggm eval (ppoprf))", "key(self.key)", "ad(_)"] := by decide
 
-theorem ppoprf_hash : skelPpoprfHash = ["new(<label>)", "key(input)"] := by decide
+theorem ppoprf_hash : skelPpoprfHash = ["new(<label>)", "key(_)"] := by decide
 
 /-- the three uses of `strobe_digest`: measurement keyed, epoch and threshold as two separate
 associated-data operations; the index as one byte; `r₁` keyed with the epoch as associated data -/
